@@ -496,7 +496,15 @@ func (sw *SessionWindow) collectExpiredSessions(currentTime time.Time) [][]types
 
 			if allowedLateness > 0 {
 				closeTime := s.slot.End.Add(allowedLateness)
-				sw.triggeredSessions[key] = &sessionInfo{
+				// An earlier fired session of this key may still be open for late
+				// data under the same map key (the key is reused once its session
+				// has fired): keep both, under a fresh parked key.
+				tk := key
+				if _, taken := sw.triggeredSessions[tk]; taken {
+					sw.parkSeq++
+					tk = sessionMapKeyOwner(key) + parkedSessionSep + strconv.FormatUint(sw.parkSeq, 10)
+				}
+				sw.triggeredSessions[tk] = &sessionInfo{
 					session:   s,
 					closeTime: closeTime,
 				}
